@@ -843,6 +843,10 @@ pub(crate) fn parse_formatted_number(
     // check if it is a currency in currencies
     for currency in currencies {
         if let Some(p) = value.strip_prefix(&format!("-{currency}")) {
+            // the sign has been read: "-$-5" is not a number
+            if p.trim().starts_with(['-', '+']) {
+                return Err("Cannot parse number".to_string());
+            }
             let (f, options) = parse_number(p.trim(), decimal_separator, group_separator)?;
             if options.is_scientific {
                 return Ok((-f, Some(scientific_format.to_string())));
